@@ -30,6 +30,11 @@ def spec(tier):
                         f2.pop(v, None)
                     obs.append(CH(name=f"memory_oc{int(oc)}_{kinds}_s{sus}_g{gi}", harness="c04.memory_step", sym=sym, fixed=f2,
                                   timeout=1200 if th else 600))
+    # cancelling changes: container 2 starts (possibly above its limit) in the tick container 1 finishes
+    for oc in (False, True):
+        obs.append(CH(name=f"cancelling_oc{int(oc)}", harness="c04.memory_step",
+                      sym=dict(x1=I(0, 30), x2=I(0, 30), a2=I(1, 30), t2=I(1, 4)),
+                      fixed=dict(oc=oc, kinds=["F", "F", "F"], cap=200, a0=30, a1=30, x0=5, dA=1, t1=0, sus_at=-1), timeout=900))
     # timing of starts and suspension symbolic
     for oc in (False, True):
       for t1v in (0, 1, 2, 3):
